@@ -1764,7 +1764,9 @@ func compileLogicalOpExprAux(context *funcContext, reg int, expr ast.Expr, ec *e
 		}
 	} else {
 		reg += compileExpr(context, reg, expr, ecnone(0))
-		if !hasnextcond {
+		if !hasnextcond && !(isLastAnd && sreg != a) {
+			// (when the false outcome of this operand is the value of the whole expression and the
+			// destination is another register - an existing local - the TESTSET below stores it)
 			code.AddABC(OP_TEST, a, 0, 0^flip, sline(expr))
 		} else {
 			code.AddABC(OP_TESTSET, sreg, a, 0^flip, sline(expr))
